@@ -204,7 +204,7 @@ def variable_to_string(variable_type, var_value):
         try:
             # everything else just gets a string value
             return wire_safe(str(var_value))
-        except Exception:
+        except BaseException:
             # it is possible for str to fail if there is a custom __str__ function
             return f'{type(var_value)}@{id(var_value)}'
 
@@ -338,7 +338,7 @@ def find_children_for_parent(var_collector: Collector, parent_node: ParentNode, 
         # the type, not isinstance: that asks the object for its __class__, and attribute access can raise
         try:
             args = value.args
-        except Exception:
+        except BaseException:
             args = None
         if type(args) is tuple:
             return process_list_breadth_first(var_collector, parent_node, args)
@@ -358,7 +358,7 @@ def instance_attributes(value):
     """
     try:
         attributes = value.__dict__
-    except Exception:
+    except BaseException:
         return None
     if isinstance(attributes, Mapping):
         return attributes
@@ -406,7 +406,7 @@ def safe_str(value) -> str:
     """
     try:
         return wire_safe(str(value))
-    except Exception:
+    except BaseException:
         return f'{type(value)}@{id(value)}'
 
 
